@@ -358,7 +358,7 @@ pub fn parts<'a>(cli: &'a Cli) -> Option<(Vec<Part<'a>>, &'static str, Vec<&'sta
     ];
     match cli.property.as_str() {
         "C02" => {
-            parts.push(make_part("mem", "CONV/mem", cli.cases(20_000, 1_000_000), || gen::c02_strategy(mem()), |_| (), |_, c| {
+            parts.push(make_part("mem", "CONV/mem", cli.cases(6_000, 400_000), || gen::c02_strategy(mem()), |_| (), |_, c| {
                 let (exp, obs) = run(c);
                 c02_oracle(c, &exp, &obs, "00000000")
             }));
@@ -387,7 +387,12 @@ pub fn parts<'a>(cli: &'a Cli) -> Option<(Vec<Part<'a>>, &'static str, Vec<&'sta
                 let (exp, obs) = run(c);
                 c06_oracle(c, &exp, &obs)
             }));
-            Some((parts, "part mem: the C06 cases (without panicking handlers) over the in-memory connection; part mem-withheld-body: a request with a streamed body (Content-Length > 1024, chunked, or Expect: 100-continue) that the application drops / answers without reading, while the client withholds the rest of the body until the answer has arrived: the answer must not wait for the body (exact stall detection), followers are served afterwards", a))
+            parts.push(make_part("mem-failing-respond", "CONV/mem", cli.cases(5_000, 200_000), || gen::c06_failing_strategy(mem()), |_| (), |_, c| {
+                // every delivered request is handled (the model stops at the failing one)
+                let obs = run_mem(c, &MemOpts::default());
+                c06_failing_oracle(c, &expect(c), &obs)
+            }));
+            Some((parts, "part mem-failing-respond: respond() with a body source that errors or panics after k of the declared bytes (GET and HEAD), followed by 0-2 further requests: never more response heads on the wire than requests delivered (no automatic 500 after a response that had begun); part mem: the C06 cases (without panicking handlers) over the in-memory connection; part mem-withheld-body: a request with a streamed body (Content-Length > 1024, chunked, or Expect: 100-continue) that the application drops / answers without reading, while the client withholds the rest of the body until the answer has arrived: the answer must not wait for the body (exact stall detection), followers are served afterwards", a))
         }
         "C09" => {
             parts.push(make_part("mem", "CONV/mem", cli.cases(20_000, 1_000_000), move || gen::c09_strategy(max_len, mem()), |_| (), |_, c| {
